@@ -324,7 +324,8 @@ Proof.
   specialize (U3 h3 s3 eq_refl).
   assert (U4 : UP (length mods) (heap0 mods rt) (if c_restore c then step_restore mods rt h3 else h3)).
   { destruct (c_restore c); [|exact U3]. apply UP_mapi; [apply restore_flag_only|exact U3]. }
-  destruct (c_method c); inversion E; subst; cbn [heap]; try exact U4; apply UP_mapi; try apply final_flag_only; exact U4.
+  destruct (c_method c); inversion E; subst; cbn [heap]; try exact U4;
+    destruct (c_keepshared c); try (apply UP_mapi; [apply restore_flag_only|]); apply UP_mapi; try apply final_flag_only; exact U4.
 Qed.
 
 Lemma nth_heap0 mods rt i d : i < length mods ->
@@ -403,7 +404,7 @@ Lemma convert_shape c mods rt st : convert c mods rt = Some st ->
     let h4 := if c_restore c then step_restore mods rt h3 else h3 in
     match c_method c with
     | SN => heap st = h4 /\ seed_train st = false /\ wrap_train st = true /\ s3 = map Some (seq 0 (length mods))
-    | _ => heap st = step_final rt h4 s3 /\ seed_train st = rt /\ wrap_train st = rt
+    | _ => heap st = (if c_keepshared c then step_restore mods rt (step_final rt h4 s3) else step_final rt h4 s3) /\ seed_train st = rt /\ wrap_train st = rt
     end.
 Proof.
   intro E. unfold convert in E.
@@ -425,45 +426,58 @@ Proof.
 Qed.
 
 (* PIT and MPS end in the mode they found: wrapper, seed, and every object the seed holds (its modules and the
-   BatchNorm copies inside them) — whatever the configuration, also at the pinned commit *)
+   BatchNorm copies inside them); a module that the seed shares with the caller's model keeps the caller's flag
+   (c_keepshared) — whatever the rest of the configuration *)
 Theorem convert_keeps_mode c mods rt st :
   c_method c <> SN -> convert c mods rt = Some st ->
   wrap_train st = rt /\ seed_train st = rt /\
-  forall id, In id (reach (heap st) (seed st)) -> id < length (heap st) -> o_train (nth id (heap st) dobj) = rt.
+  forall id, In id (reach (heap st) (seed st)) -> id < length (heap st) ->
+    o_train (nth id (heap st) dobj) = if c_keepshared c && Nat.leb id (length mods) then found_flag mods rt id else rt.
 Proof.
   intros HM E. destruct (convert_shape c mods rt st E) as [h3 [s3 [L3 [ES H]]]]. cbn zeta in H.
   set (h4 := if c_restore c then step_restore mods rt h3 else h3) in *.
-  assert (H' : heap st = step_final rt h4 s3 /\ seed_train st = rt /\ wrap_train st = rt) by (destruct (c_method c); [exact H|exact H|congruence]).
+  assert (H' : heap st = (if c_keepshared c then step_restore mods rt (step_final rt h4 s3) else step_final rt h4 s3)
+               /\ seed_train st = rt /\ wrap_train st = rt) by (destruct (c_method c); [exact H|exact H|congruence]).
   destruct H' as [EH [E1 E2]]. repeat split; [exact E2|exact E1|].
-  intros id Hin Hlt. rewrite EH in *. rewrite ES in *. unfold step_final in *.
-  rewrite reach_mapi in Hin by apply final_flag_only. rewrite mapi_length in Hlt. rewrite nth_mapi by exact Hlt.
-  apply memb_in in Hin. rewrite Hin. reflexivity.
+  intros id Hin Hlt. rewrite EH in *. rewrite ES in *.
+  destruct (c_keepshared c); cbn [andb].
+  - unfold step_restore in Hin, Hlt |- *. rewrite reach_mapi in Hin by apply restore_flag_only. rewrite mapi_length in Hlt.
+    rewrite nth_mapi by exact Hlt. destruct (Nat.leb id (length mods)); [reflexivity|].
+    unfold step_final in *. rewrite reach_mapi in Hin by apply final_flag_only. rewrite mapi_length in Hlt. rewrite nth_mapi by exact Hlt.
+    apply memb_in in Hin. rewrite Hin. reflexivity.
+  - unfold step_final in *. rewrite reach_mapi in Hin by apply final_flag_only. rewrite mapi_length in Hlt. rewrite nth_mapi by exact Hlt.
+    apply memb_in in Hin. rewrite Hin. reflexivity.
 Qed.
 
 Lemma train_nth_restore mods rt h i : i <= length mods -> i < length h ->
   o_train (nth i (step_restore mods rt h) dobj) = found_flag mods rt i.
 Proof. intros Hi HL. unfold step_restore. rewrite nth_mapi by exact HL. apply Nat.leb_le in Hi. rewrite Hi. reflexivity. Qed.
 
-(* the caller's model (the code as it is now): every module of it, and the model itself, ends with the flag it was
-   found with, unless the converted model shares it — then it has the mode of the converted model *)
+(* the caller's model: every module of it, and the model itself, ends with the flag it was found with (c_keepshared);
+   before the last repair a module shared with the converted model took the mode of the converted model *)
 Theorem convert_user_mode c mods rt st :
   c_restore c = true -> convert c mods rt = Some st ->
   forall i, i <= length mods ->
     o_train (nth i (heap st) dobj) =
       match c_method c with
       | SN => found_flag mods rt i
-      | _ => if memb i (reach (heap st) (seed st)) then rt else found_flag mods rt i
+      | _ => if c_keepshared c then found_flag mods rt i
+             else if memb i (reach (heap st) (seed st)) then rt else found_flag mods rt i
       end.
 Proof.
   intros HR E i Hi. destruct (convert_shape c mods rt st E) as [h3 [s3 [L3 [ES H]]]]. cbn zeta in H. rewrite HR in H.
   assert (Hlt : i < length h3) by lia.
+  assert (G : forall hh, hh = (if c_keepshared c then step_restore mods rt (step_final rt (step_restore mods rt h3) s3) else step_final rt (step_restore mods rt h3) s3) ->
+              o_train (nth i hh dobj) = if c_keepshared c then found_flag mods rt i
+                                        else if memb i (reach hh s3) then rt else found_flag mods rt i).
+  { intros hh EH. rewrite EH. destruct (c_keepshared c).
+    - apply train_nth_restore; [exact Hi|]. unfold step_final, step_restore. rewrite !mapi_length. exact Hlt.
+    - unfold step_final. rewrite reach_mapi by apply final_flag_only.
+      rewrite nth_mapi by (unfold step_restore; rewrite mapi_length; exact Hlt).
+      destruct (memb i (reach (step_restore mods rt h3) s3)); [reflexivity|]. apply train_nth_restore; assumption. }
   destruct (c_method c) eqn:EM.
-  - destruct H as [EH _]. rewrite EH, ES. unfold step_final. rewrite reach_mapi by apply final_flag_only.
-    rewrite nth_mapi by (unfold step_restore; rewrite mapi_length; exact Hlt).
-    destruct (memb i (reach (step_restore mods rt h3) s3)); [reflexivity|]. apply train_nth_restore; assumption.
-  - destruct H as [EH _]. rewrite EH, ES. unfold step_final. rewrite reach_mapi by apply final_flag_only.
-    rewrite nth_mapi by (unfold step_restore; rewrite mapi_length; exact Hlt).
-    destruct (memb i (reach (step_restore mods rt h3) s3)); [reflexivity|]. apply train_nth_restore; assumption.
+  - destruct H as [EH _]. rewrite ES. apply G. exact EH.
+  - destruct H as [EH _]. rewrite ES. apply G. exact EH.
   - destruct H as [EH _]. rewrite EH. apply train_nth_restore; assumption.
 Qed.
 
@@ -473,13 +487,30 @@ Proof.
   apply Nat.ltb_lt in E. rewrite Forall_forall in H. apply H. apply nth_In. exact E.
 Qed.
 
-(* a model handed over in ONE mode (train or eval: all its modules agree with the model) gets all its flags back *)
+(* the code as it is now: ANY mix of flags in the model handed over comes back untouched *)
+Corollary convert_keeps_user_flags c mods rt st :
+  c_restore c = true -> c_keepshared c = true -> convert c mods rt = Some st ->
+  forall i, i <= length mods -> o_train (nth i (heap st) dobj) = found_flag mods rt i.
+Proof.
+  intros HR HK E i Hi. rewrite (convert_user_mode c mods rt st HR E i Hi). rewrite HK. destruct (c_method c); reflexivity.
+Qed.
+
+(* a model handed over in ONE mode (all its modules agree with the model) got its flags back already before the last repair *)
 Corollary convert_keeps_user_mode c mods rt st :
   c_restore c = true -> Forall (fun m => u_train m = rt) mods -> convert c mods rt = Some st ->
   forall i, i <= length mods -> o_train (nth i (heap st) dobj) = found_flag mods rt i.
 Proof.
   intros HR HU E i Hi. rewrite (convert_user_mode c mods rt st HR E i Hi). rewrite (found_flag_uniform mods rt i HU).
-  destruct (c_method c); try reflexivity; destruct (memb i _); reflexivity.
+  destruct (c_method c); try reflexivity; destruct (c_keepshared c); try reflexivity; destruct (memb i _); reflexivity.
+Qed.
+
+(* before the last repair: a Dropout kept in eval() inside a training model comes back in training mode *)
+Theorem convert_keeps_user_flags_refuted : exists m mods rt st i,
+  convert (before_keepshared m true false) mods rt = Some st /\ i < length mods /\
+  o_train (nth i (heap st) dobj) <> found_flag mods rt i.
+Proof.
+  exists PIT, [mk KLayer false None 0 false true; mk KOther false (Some 0) 1 false false], true. eexists. exists 1.
+  split; [vm_compute; reflexivity|]. cbn. split; [lia|discriminate].
 Qed.
 
 (* the pinned commit: the model handed over in training mode comes back in eval mode *)
@@ -580,8 +611,11 @@ Proof.
   { intros f h Hf Hh. apply Forall_mapi_from; assumption. }
   assert (F4 : Forall (FB c) (if c_restore c then step_restore mods rt h3 else h3)).
   { destruct (c_restore c); [|exact F3]. apply Ft; [|exact F3]. intros i o Ho. destruct (Nat.leb i (length mods)); exact Ho. }
-  destruct (c_method c); inversion E; subst; cbn [heap]; try exact F4; apply Ft; try exact F4;
-    intros i o Ho; destruct (memb i _); exact Ho.
+  assert (Frest : forall h, Forall (FB c) h -> Forall (FB c) (step_restore mods rt h)).
+  { intros h Hh. apply Ft; [|exact Hh]. intros i o Ho. destruct (Nat.leb i (length mods)); exact Ho. }
+  assert (Ffin : forall h s, Forall (FB c) h -> Forall (FB c) (step_final rt h s)).
+  { intros h s Hh. apply Ft; [|exact Hh]. intros i o Ho. destruct (memb i _); exact Ho. }
+  destruct (c_method c); inversion E; subst; cbn [heap]; try exact F4; destruct (c_keepshared c); try apply Frest; apply Ffin; exact F4.
 Qed.
 
 (* the pinned commit: a user-placed layer built with the default flag and folded by PIT(fold_bn=True) *)
